@@ -39,11 +39,15 @@ func c02Check(in []byte, m *stun.Message) (outcome, key, detail string) {
 			}
 			// the other decode entry points, each on a Message that has just held another datagram (one per input,
 			// rotating; all four for inputs of at most 24 bytes)
+			prev := c01Big
+			if c02Prev != nil {
+				prev = c02Prev
+			}
 			for e := 1; e <= 4; e++ {
-				if len(in) > 24 && e != 1+len(in)%4 {
+				if len(in) > 24 && e != 1+len(in)%4 && c02Prev == nil {
 					continue
 				}
-				m.Raw = append(make([]byte, 0, len(in)+len(c01Big)), c01Big...)
+				m.Raw = append(make([]byte, 0, len(in)+len(prev)), prev...)
 				if err := m.Decode(); err != nil {
 					key, detail = "harness", "priming message does not decode"
 					return
@@ -62,6 +66,9 @@ func c02Check(in []byte, m *stun.Message) (outcome, key, detail string) {
 	}
 	return
 }
+
+// c02Prev, when set, is what the reused Message held before the input (see sweepPrefixAfterFull).
+var c02Prev []byte
 
 // c02Entry selects the decode entry point of c02Check1 (0: Message.Decode on Raw = input).
 var c02Entry int
@@ -226,6 +233,13 @@ func init() {
 			sweepLarge(c, visit)
 			sweepTypes(c, visit)
 			sweepShort(c, visit)
+			sweepMsgTypes(c, visit)
+			sweepLongTail(c, visit)
+			sweepPrefixAfterFull(c, func(in *decodeInput, seq int64) {
+				c02Prev = in.Prev
+				visit(in, seq)
+				c02Prev = nil
+			})
 			// all 65536 message type words in front of a fixed two-attribute body
 			body := ref.Encode(0, [12]byte{1, 2, 3, 4, 5, 6, 7, 8, 9, 10, 11, 12}, []ref.EncodeAttr{{Type: 0x8020, Value: []byte{1, 2, 3}}, {Type: 0x0020, Value: []byte{9}}})
 			in := &decodeInput{Fam: "typeword"}
@@ -246,11 +260,14 @@ func init() {
 		},
 		Replay: func(c *Ctx, p json.RawMessage) {
 			c.startWatchdog(5e9)
-			var r struct{ Hex string }
+			var r struct{ Hex, Prev string }
 			if err := json.Unmarshal(p, &r); err != nil {
 				c.Fail("%v", err)
 			}
 			b, _ := hex.DecodeString(r.Hex)
+			if r.Prev != "" {
+				c02Prev, _ = hex.DecodeString(r.Prev)
+			}
 			wc := &watchCase{Key: "hang", Detail: "Decode does not return", Replay: map[string]interface{}{"hex": r.Hex}}
 			c.Watch(wc)
 			_, key, detail := c02Check(b, new(stun.Message))
